@@ -591,6 +591,16 @@ def anytime_call(alg, presented, numbins, opts, time_limit):
     return out, clock.reads
 
 
+ANYTIME_MODULES = {"cg": "prtpy.partitioning.complete_greedy", "cbldm": "prtpy.partitioning.cbldm"}
+
+
+def call_with_ticks(alg, param, presented, outputtype, opts, ticks):
+    """A public call of complete greedy / cbldm with time_limit = `ticks`, under a counting clock that starts at 0 for this call: a
+    deterministic time-limited call, so that the purity statements apply to it like to any other call."""
+    with counting_clock(ANYTIME_MODULES[alg]):
+        return call(alg, param, presented, outputtype, dict(opts or {}, time_limit=ticks))
+
+
 def ckk_generator_yields(presented, numbins):
     """Every partition yielded by the complete Karmarkar-Karp generator, snapshotted at the moment it is yielded."""
     from prtpy.partitioning.complete_karmarkar_karp_sy import generator
